@@ -321,15 +321,18 @@ func checkDoc(c *hc.Ctx, fonts []*canvas.FontFamily, ref []*canvas.Font, spec do
 	for _, bad := range placement {
 		fail("topath-placement", bad)
 	}
-	// the recorded defect class: one font object pair shares one subsetter that is reset
-	resetClass := ""
+	// A font used in both writing directions has two font objects that share one subsetter; Close
+	// subsets the font once per object. For a CFF font the second Subset runs on the program the first
+	// one mutated (recorded third-party defect): that class, and only that class, gets a suffix.
+	twice := map[*canvas.Font]bool{}
 	for f := range usedV {
 		if usedH[f] {
-			resetClass = ":font-used-horizontally-and-vertically"
+			c.Count("pdf:same-font-H-and-V")
+			if spec.Subset && f.SFNT.IsCFF {
+				twice[f] = true
+				c.Count("pdf:CFF font subset twice in one document")
+			}
 		}
-	}
-	if resetClass != "" {
-		c.Count("pdf:same-font-H-and-V")
 	}
 	pf, err := openPDF(buf.Bytes())
 	if err != nil {
@@ -372,7 +375,10 @@ func checkDoc(c *hc.Ctx, fonts []*canvas.FontFamily, ref []*canvas.Font, spec do
 		sp := exp[i]
 		c.Count("pdf:item " + spec.Items[sp.item].Kind)
 		src := ref[spec.Items[sp.item].fontIdx].SFNT // pristine copy of the span's font
-		resetClass := resetClass
+		resetClass := ""
+		if twice[sp.font] {
+			resetClass = ":cff-font-subset-twice-in-one-document"
+		}
 		if dirty[spec.Items[sp.item].fontIdx] {
 			// recorded defect class: a CFF font object that went through a subsetting render before
 			resetClass = ":cff-font-object-reused-after-subset-render"
@@ -397,7 +403,12 @@ func checkDoc(c *hc.Ctx, fonts []*canvas.FontFamily, ref []*canvas.Font, spec do
 				return
 			}
 			if fi.Program == nil || fi.ProgErr != nil {
-				fail("font-program", fmt.Sprintf("/%s: embedded font program does not parse: %v", ob.fontName, fi.ProgErr))
+				kind := "font-program" + resetClass
+				if resetClass == "" && spec.Subset && src.IsCFF && fi.ProgErr != nil && strings.HasPrefix(fi.ProgErr.Error(), "CFF: ") {
+					// recorded third-party class: the CFF table written by the subsetter is internally inconsistent
+					kind = "font-program:cff-subset-unreadable"
+				}
+				fail(kind, fmt.Sprintf("/%s: embedded font program does not parse: %v", ob.fontName, fi.ProgErr))
 				return
 			}
 			infos[ob.fontName] = fi
@@ -412,6 +423,12 @@ func checkDoc(c *hc.Ctx, fonts []*canvas.FontFamily, ref []*canvas.Font, spec do
 		}
 		if sz := sp.glyphs0Size(); sz != 0 && math.Abs(ob.size-sz) > 1e-4*(1+ob.size) {
 			fail("font-size", fmt.Sprintf("Tf size %v, face size %v mm", ob.size, sz))
+		}
+		if resetClass == "" && spec.Subset && !fi.HasMap && src.IsCFF && fi.Program.NumGlyphs() == src.NumGlyphs() && src.NumGlyphs() > 1 {
+			// recorded class: Subset failed on a fresh CFF font ("WARNING: font subsetting failed"), writeFont
+			// embedded the full program but kept subset codes and wrote no CIDToGIDMap
+			resetClass = ":subset-failed-full-font-embedded"
+			c.Count("pdf:subsetting failed, full CFF program embedded")
 		}
 		// span width = the face's scale times the summed advances (what TextWidth measures)
 		units := int64(0)
